@@ -36,6 +36,7 @@ class Opts:
         self.floats = True
         self.nested = True
         self.big_counts = False         # parameter multiplicities around 15/16
+        self.float_consts = True        # float constants do not compile in C++ (FLOAT()/DOUBLE(), K17)
         self.__dict__.update(kw)
 
 
@@ -208,7 +209,7 @@ def gen_iface(rng, nm, opts, structs, ifaces, base):
     for _ in range(rng.randint(0, opts.max_methods + 2)):
         r = rng.random()
         if r < 0.15 and opts.consts:
-            t = rng.choice(PRIMS if opts.floats else PRIMS[:8])
+            t = rng.choice(PRIMS if (opts.floats and opts.float_consts) else PRIMS[:8])
             members.append({"k": "const", "type": t, "name": nm.new("K"), "value": gen_literal(rng, t)})
         elif r < 0.35 and opts.errors:
             members.append({"k": "error", "name": nm.new("E")})
@@ -251,7 +252,7 @@ def gen_case(rng, opts=None, cid="case"):
             decls.append(i)
     if opts.consts:
         for _ in range(rng.randint(0, 3)):
-            t = rng.choice(PRIMS if opts.floats else PRIMS[:8])
+            t = rng.choice(PRIMS if (opts.floats and opts.float_consts) else PRIMS[:8])
             decls.insert(rng.randint(0, len(decls)), {"k": "const", "type": t, "name": nm.new("K"), "value": gen_literal(rng, t)})
     # distribute declarations over files: a declaration may live in any file; a file must
     # (transitively) include the files holding what its declarations use. We keep it simple
